@@ -501,3 +501,4 @@ var propSound = vk.Register(&vk.Prop[Case]{
 func TestSound(t *testing.T) { propSound.Run(t) }
 
 func classify(c Case, fail string) string { return "" }
+func FuzzSound(f *testing.F) { propSound.Fuzz(f) }
